@@ -471,11 +471,11 @@ func rewriteFile(p *packages.Package, f *ast.File, fe *fileEdits, st *stats, rel
 				}
 			case "time":
 				switch n.Sel.Name {
-				case "Now", "Sleep", "Since", "Until":
+				case "Now", "Sleep", "Since", "Until", "After", "AfterFunc":
 					fe.add(off(id.Pos()), len(id.Name), "zzsim")
 					fe.keep[id.Name] = id.Name + ".Duration"
 					st.TimeCalls++
-				case "After", "AfterFunc", "NewTimer", "NewTicker", "Tick":
+				case "NewTimer", "NewTicker", "Tick":
 					unsupported(n.Pos(), "time."+n.Sel.Name)
 				}
 			}
@@ -505,7 +505,6 @@ func modulePathOf(p *packages.Package) (string, bool) {
 	}
 	return "", false
 }
-
 
 // chanOf reports the element type if t's underlying type is a channel.
 func chanOf(t types.Type) (types.Type, bool) {
